@@ -548,3 +548,14 @@ V("twin: new 4x4 branch of det by Laplace expansion along two rows", "C20", MATH
 V("Kronecker delta for p == n as a contraction of the int8 epsilon arrays", "C05", BASE, "np.tensordot(e.array, e.array, 0)", "np.tensordot(e.array, e.array, ([], []))", "silent")
 V("general Kronecker delta by contracting two int8 epsilon arrays", "C05", BASE, "            array = np.tensordot(e.array, e.array, 0)", "            array = np.tensordot(e.array, e.array, (list(range(p, n)), list(range(p, n))))", "E6.K10", "KroneckerDelta", quick=True)
 V("twin: the same contraction with a widened operand", "C05", BASE, "            array = np.tensordot(e.array, e.array, 0)", "            array = np.tensordot(e.array.astype(int), e.array, (list(range(p, n)), list(range(p, n))))", "silent")
+
+
+# ------------------------------------------------------------------------------------------------ the generic action by interpretation (E17)
+for _p in ("C06", "C07"):
+    V(f"generic action: the inverse is used for the covariant indices ({_p})", _p, BASE, "        edges: list[tuple[Tensor, Tensor]] = [(self, transformation.copy()) for _ in range(ts[0])]",
+      "        edges: list[tuple[Tensor, Tensor]] = [(self, transformation.inverse().copy()) for _ in range(ts[0])]", "E17", "Tensor.__apply__")
+    V(f"generic action: one contravariant index is left untransformed ({_p})", _p, BASE, "            edges.extend((inv.copy(), self) for _ in range(ts[1]))", "            edges.extend((inv.copy(), self) for _ in range(ts[1] - 1))", "E17", "Tensor.__apply__")
+V("generic action: the inverse contracted from the other side", "C07", BASE, "            edges.extend((inv.copy(), self) for _ in range(ts[1]))", "            edges.extend((self, inv.copy()) for _ in range(ts[1]))", "E17", "Tensor.__apply__")
+V("twin: generic action with the edge list built in one expression", "C07", BASE,
+  "        edges: list[tuple[Tensor, Tensor]] = [(self, transformation.copy()) for _ in range(ts[0])]\n        if ts[1] > 0:\n            inv = transformation.inverse()\n            edges.extend((inv.copy(), self) for _ in range(ts[1]))",
+  "        inv = transformation.inverse()\n        edges: list[tuple[Tensor, Tensor]] = [(self, transformation.copy()) for _ in range(ts[0])] + [(inv.copy(), self) for _ in range(ts[1])]", "silent")
